@@ -113,7 +113,7 @@ func main() {
 			fmt.Printf("%s %s seed=%d: %d violation(s) in %.1fs\n", id, tier, e.Seed, n, time.Since(e.Start).Seconds())
 			os.Exit(1)
 		}
-		fmt.Printf("%s %s seed=%d: held on everything explored (%.1fs); evidence in %s\n", id, tier, e.Seed, time.Since(e.Start).Seconds(), filepath.Join(e.Verif, "evidence", id+".json"))
+		fmt.Printf("%s %s seed=%d: held on everything explored (%.1fs); evidence in %s\n", id, tier, e.Seed, time.Since(e.Start).Seconds(), filepath.Join(e.evidenceDir(), id+".json"))
 	case "replay":
 		if len(os.Args) < 3 {
 			usage()
